@@ -622,23 +622,58 @@ def gen_pair(rng, mros, adepth=2, vdepth=2):
 # ----------------------------------------------------------------------------------------------
 # module construction: ONE check per line, so (error class, line) identifies (pair, site)
 # ----------------------------------------------------------------------------------------------
+# variant sites: the same three enforcement points reached through other call/assignment shapes.  The model has
+# one prediction per enforcement point (arg / ret / asg); every variant must agree with the prediction of its
+# base site (pytype routes them through the same matcher call).
+VARIANTS = ("arg.kwo", "arg.kw", "arg.pos", "arg.meth", "arg.star", "ret.meth", "asg.re")
+
+
+def base_site(s):
+  return s.split(".")[0]
+
+
+ALL_SITES = SITES + VARIANTS
+
+
 def build_module(bases, pairs, sites=SITES):
   """returns (source, {line: (pair index, site)})"""
   lines = prelude(bases).rstrip("\n").split("\n")
   where = {}
-  if "arg" in sites:
-    for i, (a, _) in enumerate(pairs):
-      lines.append("def fa_%d(x: %s): pass" % (i, ann_py(a)))
+  for i, (a, _) in enumerate(pairs):
+    A = ann_py(a)
+    if "arg" in sites or "arg.kw" in sites:
+      lines.append("def fa_%d(x: %s): pass" % (i, A))
+    if "arg.kwo" in sites:
+      lines.append("def fk_%d(p=0, *, x: %s): pass" % (i, A))
+    if "arg.pos" in sites:
+      lines.append("def fp_%d(x: %s, /, q=0): pass" % (i, A))
+    if "arg.star" in sites:
+      lines.append("def fs_%d(*xs: %s): pass" % (i, A))
+    if "arg.meth" in sites or "ret.meth" in sites:
+      lines.append("class M_%d:" % i)
+      lines.append("  def m(self, x: %s): pass" % A)
   for i, (a, v) in enumerate(pairs):
-    if "arg" in sites:
-      lines.append("fa_%d(%s)" % (i, val_py(v)))
-      where[len(lines)] = (i, "arg")
-    if "ret" in sites:
-      lines.append("def fr_%d() -> %s: return %s" % (i, ann_py(a), val_py(v)))
-      where[len(lines)] = (i, "ret")
-    if "asg" in sites:
-      lines.append("va_%d: %s = %s" % (i, ann_py(a), val_py(v)))
-      where[len(lines)] = (i, "asg")
+    A, V = ann_py(a), val_py(v)
+    def add(site, text):
+      if site in sites:
+        lines.append(text)
+        where[len(lines)] = (i, site)
+    add("arg", "fa_%d(%s)" % (i, V))
+    add("ret", "def fr_%d() -> %s: return %s" % (i, A, V))
+    add("asg", "va_%d: %s = %s" % (i, A, V))
+    add("arg.kwo", "fk_%d(x=%s)" % (i, V))
+    add("arg.kw", "fa_%d(x=%s)" % (i, V))
+    add("arg.pos", "fp_%d(%s)" % (i, V))
+    add("arg.meth", "M_%d().m(%s)" % (i, V))
+    add("arg.star", "fs_%d(%s)" % (i, V))
+    if "ret.meth" in sites:
+      lines.append("class R_%d:" % i)
+      lines.append("  def m(self) -> %s: return %s" % (A, V))
+      where[len(lines)] = (i, "ret.meth")
+    if "asg.re" in sites:
+      lines.append("vb_%d: %s" % (i, A))
+      lines.append("vb_%d = %s" % (i, V))
+      where[len(lines)] = (i, "asg.re")
   return "\n".join(lines) + "\n", where
 
 
@@ -823,6 +858,38 @@ def exhaustive_atoms():
   return [(a, v) for a in atom_anns() for v in vals]
 
 
+def shape_family():
+  """deterministic family: container *shape* decides — every tuple length 0..3 against every fixed-length /
+  homogeneous / Sequence annotation (also nested in list, tuple and Optional), and every empty or one-element
+  container against every generic annotation.  No Collection (compared one-sidedly elsewhere)."""
+  I, S = ("int",), ("str",)
+  i1, i2, i3, sa = ("int", 1), ("int", 2), ("int", 3), ("str", "a")
+  tvals = [("tuple", []), ("tuple", [i1]), ("tuple", [sa]), ("tuple", [i1, sa]), ("tuple", [sa, i1]),
+           ("tuple", [i1, i2, i3])]
+  tanns = [("tup", []), ("tup", [I]), ("tup", [S]), ("tup", [I, S]), ("tup", [I, I, I]), ("tuphom", I),
+           ("tuphom", S), ("seq", I), ("opt", ("tup", [I, S])), ("union", [("tup", [I]), ("tup", [I, S])]),
+           ("object",), ("list", I)]
+  out = [(a, v) for a in tanns for v in tvals]
+  # nested: the tuple is an element
+  for v in tvals:
+    out.append((("list", ("tup", [I, S])), ("list", [v])))
+    out.append((("tup", [("tup", [I]), I]), ("tuple", [v, i2])))
+    out.append((("dict", S, ("tup", [I, S])), ("dict", [[sa, v]])))
+    out.append((("tuphom", ("tup", [I])), ("tuple", [v, v])))
+  cvals = [("list", []), ("list", [i1]), ("list", [sa]), ("set", []), ("set", [i1]), ("fset", []), ("fset", [sa]),
+           ("dict", []), ("dict", [[sa, i1]]), ("dict", [[i1, sa]]), ("tuple", []), ("none",)]
+  canns = [("list", I), ("list", S), ("set", I), ("fset", S), ("dict", S, I), ("map", S, I), ("seq", I), ("iter", S),
+           ("tuphom", I), ("opt", ("list", I)), ("object",), ("any",)]
+  out += [(a, v) for a in canns for v in cvals]
+  seen, res = set(), []
+  for a, v in out:
+    k = json.dumps([tojson(a), tojson(v)])
+    if k not in seen:
+      seen.add(k)
+      res.append((a, v))
+  return res
+
+
 def batches_of(pairs, rng, size=20):
   """split into modules of `size` pairs, each with its own generated hierarchy"""
   out = []
@@ -843,7 +910,7 @@ def correspond(res, rng, tier):
   del TIMED_OUT[:]
   drv = common.ensure_driver("drv_c02")
   nrand = 1000 if tier == "quick" else 6200
-  pairs = exhaustive_atoms()
+  pairs = exhaustive_atoms() + shape_family()
   n_ex = len(pairs)
   seen = {json.dumps([tojson(a), tojson(v)]) for a, v in pairs}
   groups = [("exact", b) for b in batches_of(pairs, rng)]
@@ -903,6 +970,8 @@ def correspond(res, rng, tier):
       verd = real_verdicts(bases, ps, isolate=True)
       ob = {"obs": {}, "stray": []}
       for (i, s), e in verd.items():
+        if s not in SITES:
+          continue
         if isinstance(e, str):
           stats["collection_checks_crashed"] += 1
           ob["obs"][(i, s)] = [ERR[s]] if pr[i][s] else []      # not compared: take the model's answer
@@ -964,21 +1033,56 @@ def correspond(res, rng, tier):
       if len(samples) < 4 and ann_depth(a) == 2 and val_depth(v) >= 1:
         samples.append({"annotation": ann_py(a), "value": val_py(v), "real_errors_arg_ret_asg": outcomes,
                         "model_errors_arg_ret_asg": [m[s] for s in SITES], "member": m["member"], "guard": m["guard"]})
+  # ---- variant sites: keyword / keyword-only / positional-only / method / *args arguments, method returns and
+  # re-assignment of a declared variable must behave like the base site the model predicts
+  vgroups = [(g, pr) for g, pr in zip(groups, pred) if g[0] == "exact"]
+  rng.shuffle(vgroups)
+  vgroups = vgroups[:14 if tier == "quick" else 80]
+  vreal = run_real([(bases, ps, VARIANTS) for (_, (bases, _, ps)), _ in vgroups])
+  vstats = {"checks": 0, "real_errors": 0, "by_variant_error": {s: 0 for s in VARIANTS}, "modules": len(vgroups)}
+  for ((_, (bases, mros, ps)), pr), ob in zip(vgroups, vreal):
+    if "timeout" in ob:
+      continue
+    if "crash" in ob:
+      disagreements.append({"kind": "real-code-crash", "exception": ob["crash"], "source": ob["src"][:6000],
+                            "pairs": [[tojson(a), tojson(v)] for a, v in ps], "bases": bases, "sites": "variants"})
+      continue
+    if ob["stray"]:
+      disagreements.append({"kind": "error-on-unexpected-line", "errors": ob["stray"],
+                            "source": build_module(bases, ps, VARIANTS)[0][:6000],
+                            "pairs": [[tojson(a), tojson(v)] for a, v in ps], "bases": bases})
+    for i, (a, v) in enumerate(ps):
+      for s in VARIANTS:
+        names = ob["obs"].get((i, s), [])
+        expected = [ERR[base_site(s)]] if pr[i][base_site(s)] else []
+        vstats["checks"] += 1
+        vstats["real_errors"] += bool(names)
+        vstats["by_variant_error"][s] += bool(names)
+        if names != expected:
+          disagreements.append({"kind": "site-verdict", "mode": "exact", "site": s, "pair": pair_repr(bases, a, v),
+                                "real": names, "model": expected, "bases": bases, "ann": tojson(a), "val": tojson(v)})
+  stats["variant_sites"] = vstats
+  stats["checks"] += vstats["checks"]
   res.cov["evaluations"] = stats["checks"]
   res.cov["distinct_nontrivial"] = len(nontrivial)
   res.cov["exhaustive"] = False
-  res.cov["programs"] = len(groups)
+  res.cov["programs"] = len(groups) + len(vgroups)
   res.cov["rule"] = (
       "pairs (annotation of grammar F2, ground value expression) over generated 5-class hierarchies (single and "
       "multiple inheritance), each checked at the three sites (argument / return / annotated assignment), %d checks "
       "per generated module, one check per line; observed = set of (error class, line) from real io.generate_pyi, "
-      "expected = Lean driver.  %d pairs are the exhaustive product atomic annotation x atomic value, the rest are "
+      "expected = Lean driver.  %d pairs are the exhaustive product atomic annotation x atomic value plus the deterministic container-shape "
+      "family (every tuple length against every fixed/homogeneous/Sequence annotation, empty and one-element containers "
+      "against every generic), the rest are "
       "seeded random with annotation depth <= 2 and value depth <= 2 (annotation generated from the value's shape "
       "with perturbations, so that nested positions decide).  Annotations containing Collection are compared "
       "one-sidedly (real errors must be predicted; see registry note).  evaluations = checks (pair x site); "
       "distinct_nontrivial = distinct pairs where both annotation and value are compound, or where the three "
       "sites disagree among themselves.  In addition Lean `member` is compared with the independent Python "
-      "membership oracle evaluated on the run-time value for every pair whose displays have no equal keys."
+      "membership oracle evaluated on the run-time value for every pair whose displays have no equal keys.  "
+      "Variant sites: for a seeded subset of the modules every pair is also checked as keyword argument, keyword-only "
+      "parameter, positional-only parameter, method parameter, *args element, method return and re-assignment of a "
+      "declared variable; each must give the verdict the model predicts for its base site (arg/ret/asg)."
       % (3 * 20, n_ex))
   res.cov["distribution"] = dict(stats, pairs=len(pairs), pairs_exhaustive_atomic=n_ex, pairs_random=len(pairs) - n_ex,
                                  pairs_with_Collection=len(coll), modules=len(groups),
@@ -996,22 +1100,22 @@ def real_verdicts(bases, pairs, isolate=False):
   """{(i, site): bool error}, or raises on a crash of the real code.  isolate=True: every (pair, site) is analysed
   in a module of its own (the protocol matcher's side effects make a Collection verdict depend on earlier checks)."""
   if isolate:
-    jobs = [(bases, [p], (s,)) for p in pairs for s in SITES]
+    jobs = [(bases, [p], (s,)) for p in pairs for s in ALL_SITES]
     outs = run_real(jobs)
     res = {}
     for j, o in enumerate(outs):
-      i, s = divmod(j, len(SITES))
+      i, s = divmod(j, len(ALL_SITES))
       if "timeout" in o:
-        res[(i, SITES[s])] = "timeout: the real code did not finish"
+        res[(i, ALL_SITES[s])] = "timeout: the real code did not finish"
       else:
-        res[(i, SITES[s])] = "crash: " + o["crash"] if "crash" in o else bool(o["obs"].get((0, SITES[s])))
+        res[(i, ALL_SITES[s])] = "crash: " + o["crash"] if "crash" in o else bool(o["obs"].get((0, ALL_SITES[s])))
     return res
-  out = run_real([(bases, pairs, SITES)])[0]
+  out = run_real([(bases, pairs, ALL_SITES)])[0]
   if "timeout" in out:
     raise RuntimeError("timeout: the real code did not finish")
   if "crash" in out:
     raise RuntimeError(out["crash"])
-  return {(i, s): bool(out["obs"].get((i, s))) for i in range(len(pairs)) for s in SITES}
+  return {(i, s): bool(out["obs"].get((i, s))) for i in range(len(pairs)) for s in ALL_SITES}
 
 
 def member_documented(x, a, env):
@@ -1055,6 +1159,7 @@ def member_documented(x, a, env):
 def known_region(a, v, site, error, mem, env):
   """id of the known finding whose characterised region explains `error == mem` (a failure of the property), or None.
   Written on the Python side only (independent of the Lean model)."""
+  site = base_site(site)
   x = eval(val_py(v), env)
   if error and mem:            # false error
     if not member_documented(x, a, env):
@@ -1085,7 +1190,7 @@ def failing_sites(bases, a, v, env=None, isolate=False):
   verd = real_verdicts(bases, [(a, v)], isolate)
   mem = oracle(bases, a, v, env)
   out = []
-  for s in SITES:
+  for s in ALL_SITES:
     err = verd[(0, s)]
     if isinstance(err, str):      # the real code crashed on this check (isolate mode only)
       out.append((s, err, mem, "c02-collection-report-crash" if has_coll(a) else None))
@@ -1200,7 +1305,7 @@ def search(res, rng, disagreements, pfail):
   for bj, ps in by_bases.items():
     b = json.loads(bj)[0]
     for i in range(0, len(ps), 20):
-      jobs.append((b, ps[i:i + 20], SITES))
+      jobs.append((b, ps[i:i + 20], ALL_SITES))
   outs = run_real(jobs)
   for (b, ps, _), o in zip(jobs, outs):
     if "timeout" in o:
@@ -1216,7 +1321,7 @@ def search(res, rng, disagreements, pfail):
                           "program": build_module(b, [ps[i]], (s,))[0]})
           o["obs"][(i, s)] = None
         elif e:
-          o["obs"][(i, s)] = [ERR[s]]
+          o["obs"][(i, s)] = [ERR[base_site(s)]]
     env = runtime_env(b)
     for i, (a, v) in enumerate(ps):
       tried += 1
@@ -1224,7 +1329,7 @@ def search(res, rng, disagreements, pfail):
         mem = oracle(b, a, v, env)
       except Exception:
         continue
-      for s in SITES:
+      for s in ALL_SITES:
         if (i, s) in o["obs"] and o["obs"][(i, s)] is None:
           continue
         err = bool(o["obs"].get((i, s)))
@@ -1255,7 +1360,7 @@ def search(res, rng, disagreements, pfail):
     src, _ = build_module(f["bases"], [(a, v)], (f["site"],))
     out.append({"annotation": ann_py(a), "value": val_py(v), "site": f["site"],
                 "pytype_reports_error": f["error"], "value_is_member_of_annotation": mem,
-                "what": ("pytype reports [%s] although the value inhabits the annotation" % ERR[f["site"]]) if f["error"]
+                "what": ("pytype reports [%s] although the value inhabits the annotation" % ERR[base_site(f["site"])]) if f["error"]
                         else "pytype reports nothing although the value is outside the annotated type",
                 "program": src, "ann": tojson(a), "val": tojson(v), "bases": f["bases"]})
   return out
